@@ -11,49 +11,115 @@ import (
 
 func init() { register(&Prop{ID: "C19", Run: runC19, Gen: genC19}) }
 
-// one read-only query, parsed once, runnable many times
-type c19Query func(q *quadtree.Quadtree, buf []orb.Pointer) string
+// one read-only query, parsed once, runnable many times.  `alt` (may be nil) is the same query issued
+// through the non-Matching wrapper of the API (KNearest, InBound), which must answer identically.
+type c19Query struct {
+	run, alt func(q *quadtree.Quadtree, buf []orb.Pointer) string
+}
 
 func parseQuery(r *tokReader) c19Query {
 	switch op := r.next(); op {
 	case "f":
 		p := r.pt()
-		return func(q *quadtree.Quadtree, _ []orb.Pointer) string {
+		return c19Query{run: func(q *quadtree.Quadtree, _ []orb.Pointer) string {
 			v := q.Find(p)
 			if v == nil {
 				return "-"
 			}
 			return qid(v)
-		}
+		}, alt: func(q *quadtree.Quadtree, _ []orb.Pointer) string {
+			v := q.Matching(p, nil)
+			if v == nil {
+				return "-"
+			}
+			return qid(v)
+		}}
 	case "m":
 		p := r.pt()
 		m, rr := r.int(), r.int()
-		return func(q *quadtree.Quadtree, _ []orb.Pointer) string {
+		return c19Query{run: func(q *quadtree.Quadtree, _ []orb.Pointer) string {
 			v := q.Matching(p, modFilter(m, rr))
 			if v == nil {
 				return "-"
 			}
 			return qid(v)
-		}
+		}}
 	case "k":
 		p := r.pt()
 		k, m, rr := r.int(), r.int(), r.int()
 		md := r.next()
-		return func(q *quadtree.Quadtree, buf []orb.Pointer) string {
+		qq := c19Query{run: func(q *quadtree.Quadtree, buf []orb.Pointer) string {
 			if md == "-" {
 				return qids(q.KNearestMatching(buf, p, k, modFilter(m, rr)))
 			}
 			return qids(q.KNearestMatching(buf, p, k, modFilter(m, rr), pf(md)))
+		}}
+		if m == 1 { // no filter: the KNearest wrapper is the same query
+			qq.alt = func(q *quadtree.Quadtree, buf []orb.Pointer) string {
+				if md == "-" {
+					return qids(q.KNearest(buf, p, k))
+				}
+				return qids(q.KNearest(buf, p, k, pf(md)))
+			}
 		}
+		return qq
 	case "b":
 		b := orb.Bound{Min: r.pt(), Max: r.pt()}
 		m, rr := r.int(), r.int()
-		return func(q *quadtree.Quadtree, buf []orb.Pointer) string {
+		qq := c19Query{run: func(q *quadtree.Quadtree, buf []orb.Pointer) string {
 			return qids(q.InBoundMatching(buf, b, modFilter(m, rr)))
+		}}
+		if m == 1 {
+			qq.alt = func(q *quadtree.Quadtree, buf []orb.Pointer) string {
+				return qids(q.InBound(buf, b))
+			}
 		}
+		return qq
 	default:
 		panic("bad query op " + op)
 	}
+}
+
+// everything of the tree a query could disturb: the node structure (verif hook), the tree's bound
+// (public accessor) and the coordinates of every stored pointer, in tree order.  If the hook
+// proposed in work/proposed_fixes/C19-hook.diff is present (VerifDumpFull: bound and coordinates
+// read from inside the package) its output is included as well.
+func c19Dump(q *quadtree.Quadtree) string {
+	var sb strings.Builder
+	sb.WriteString(q.VerifDump(qid))
+	b := q.Bound()
+	sb.WriteString(" | B " + fpt(b.Min) + " " + fpt(b.Max) + " | P")
+	for _, p := range q.VerifContents() {
+		sb.WriteString(" " + qid(p) + ":" + fpt(p.Point()))
+	}
+	if f, ok := interface{}(q).(interface {
+		VerifDumpFull(func(orb.Pointer) string) string
+	}); ok {
+		sb.WriteString(" | FULL " + f.VerifDumpFull(qid))
+	}
+	return sb.String()
+}
+
+type c19Build struct {
+	op string
+	id int
+	p  orb.Point
+}
+
+func c19Tree(bnd orb.Bound, ops []c19Build) *quadtree.Quadtree {
+	q := quadtree.New(bnd)
+	for _, o := range ops {
+		o := o
+		switch o.op {
+		case "a":
+			q.Add(&qpt{o.id, o.p})
+		case "ri":
+			q.Remove(&qpt{-1, o.p}, func(p orb.Pointer) bool { return p.(*qpt).id == o.id })
+		case "rp":
+			q.Remove(&qpt{-1, o.p}, nil)
+		}
+	}
+	return q
 }
 
 func runC19(op string, in []string) string {
@@ -64,17 +130,14 @@ func runC19(op string, in []string) string {
 		r := &tokReader{t: in}
 		bnd := orb.Bound{Min: r.pt(), Max: r.pt()}
 		nb := r.int()
-		q := quadtree.New(bnd)
-		for i := 0; i < nb; i++ {
+		ops := make([]c19Build, nb)
+		for i := range ops {
 			switch o := r.next(); o {
-			case "a":
-				id := r.int()
-				q.Add(&qpt{id, r.pt()})
-			case "ri":
-				id := r.int()
-				q.Remove(&qpt{-1, r.pt()}, func(p orb.Pointer) bool { return p.(*qpt).id == id })
+			case "a", "ri":
+				ops[i] = c19Build{op: o, id: r.int()}
+				ops[i].p = r.pt()
 			case "rp":
-				q.Remove(&qpt{-1, r.pt()}, nil)
+				ops[i] = c19Build{op: o, p: r.pt()}
 			default:
 				panic("bad build op " + o)
 			}
@@ -85,13 +148,23 @@ func runC19(op string, in []string) string {
 			qs[i] = parseQuery(r)
 		}
 		g, rounds, useBuf := r.int(), r.int(), r.int() == 1
-		before := q.VerifDump(qid)
+
+		// The tree the goroutines will query is NEVER queried before they start: the oracle answers
+		// come from a second tree built by the same history, so that state a query writes lazily
+		// (a cache, a size hint, a pruned leaf) is not warmed up by the oracle pass.
+		q := c19Tree(bnd, ops)
+		oracle := c19Tree(bnd, ops)
+		before := c19Dump(q)
+		oracleBefore := c19Dump(oracle)
 		seq := make([]string, m)
 		for i, f := range qs {
-			seq[i] = f(q, nil)
+			seq[i] = f.run(oracle, nil)
 		}
-		// concurrent phase: G goroutines, each running all queries `rounds` times from its own offset
-		same := true
+		oracleAfter := c19Dump(oracle)
+
+		// concurrent phase: G goroutines, each running all queries `rounds` times from its own offset,
+		// alternating between the *Matching methods and their wrappers, and reading Bound()
+		same, boundSame := true, true
 		var mu sync.Mutex
 		var wg sync.WaitGroup
 		start := make(chan struct{})
@@ -103,23 +176,45 @@ func runC19(op string, in []string) string {
 				if useBuf {
 					buf = make([]orb.Pointer, 0, 16) // per-goroutine buffer
 				}
+				ok, bok := true, true
 				<-start
 				for rd := 0; rd < rounds; rd++ {
 					for j := 0; j < m; j++ {
 						i := (j + t) % m
-						if got := qs[i](q, buf); got != seq[i] {
-							mu.Lock()
-							same = false
-							mu.Unlock()
+						f := qs[i].run
+						if qs[i].alt != nil && (t+j+rd)%2 == 1 {
+							f = qs[i].alt
+						}
+						if got := f(q, buf); got != seq[i] {
+							ok = false
 						}
 					}
+					if q.Bound() != bnd {
+						bok = false
+					}
 				}
+				mu.Lock()
+				same = same && ok
+				boundSame = boundSame && bok
+				mu.Unlock()
 			}(t)
 		}
 		close(start)
 		wg.Wait()
-		after := q.VerifDump(qid)
-		out := append(seq, fmt.Sprintf("F %s %s %d", b2s(same), b2s(before == after), raceCount()))
+		after := c19Dump(q)
+		// and once more sequentially on the tree the goroutines used
+		late := true
+		for i, f := range qs {
+			if f.run(q, nil) != seq[i] {
+				late = false
+			}
+			if f.alt != nil && f.alt(q, nil) != seq[i] {
+				late = false
+			}
+		}
+		afterLate := c19Dump(q)
+		out := append(seq, fmt.Sprintf("F %s %s %s %s %s %s", b2s(same), b2s(before == after && after == afterLate), b2s(before == oracleBefore),
+			b2s(oracleBefore == oracleAfter), b2s(late), b2s(boundSame)))
 		return strings.Join(out, " ; ")
 	})
 }
